@@ -294,6 +294,33 @@ def _impl(t):
         return "1" if mk_block(t).check_pow() else "0"
     if op == "hdr_hash":
         return xb(mk_block(t).hash())
+    if op in ("raw_hdr", "raw_hdr_spec"):
+        raw = unx(t[1])
+        b = B.Block.parse_header(io.BytesIO(raw))
+
+        def part(fn):
+            try:
+                return fn()
+            except Exception:
+                return REJECT
+        ser, hsh = part(lambda: xb(b.serialize())), part(lambda: xb(b.hash()))
+        if op == "raw_hdr_spec":
+            return f"{ser} {hsh}"
+        return f"{ser} {hsh} {part(lambda: '1' if b.check_pow() else '0')}"
+    if op == "raw_headers_valid":
+        raws, _ = parse_counted(t, 1)
+        # through HeadersMessage.parse: count, then each header followed by a zero transaction count
+        stream = io.BytesIO(H.encode_varint(len(raws)) + b"".join(r + b"\x00" for r in raws))
+        return "1" if N.HeadersMessage.parse(stream).is_valid() else "0"
+    if op == "raw_merkleblock":
+        import buidl.merkleblock as MB
+        mb = MB.MerkleBlock.parse(io.BytesIO(unx(t[1])))
+        hh = xb(mb.hash())
+        try:
+            ok = mb.is_valid()
+        except Exception:
+            return f"{hh} {REJECT}"
+        return f"{hh} {1 if ok else 0} {blist(mb.proved_txs())}"
     if op == "headers_valid":
         n = int(t[1])
         hs = [mk_block(t, 2 + 6 * k) for k in range(n)]
@@ -312,7 +339,7 @@ def impl_line(line):
 
 
 # which lines are answered by the specification (the property determines the answer) and which by the model
-SPEC_OPS = {"merkle_root_spec", "tree_height_spec", "extract_spec", "set_compact", "get_compact", "next_work",
+SPEC_OPS = {"raw_hdr_spec", "merkle_root_spec", "tree_height_spec", "extract_spec", "set_compact", "get_compact", "next_work",
             "check_pow_spec"}
 
 
@@ -405,7 +432,21 @@ def p_bits_roundtrip(c):
     return got == b, xb(got), xb(b)
 
 
-PREDICATES = {"sound": p_sound, "complete": p_complete, "root_twice": p_root_twice, "bits_roundtrip": p_bits_roundtrip}
+def p_header_raw(c):
+    """for every 80-byte header: parse_header(raw).serialize() == raw and hash() == double-SHA256(raw) reversed
+    (hashlib, independent of the library), id() its hex"""
+    import hashlib
+    import buidl.block as B
+    raw = unx(c["raw"])
+    b = B.Block.parse_header(io.BytesIO(raw))
+    want = [xb(raw), xb(hashlib.sha256(hashlib.sha256(raw).digest()).digest()[::-1])]
+    got = [xb(b.serialize()), xb(b.hash())]
+    if got == want and b.id() != got[1][1:]:
+        got.append(b.id())
+    return got == want, got, want
+
+
+PREDICATES = {"header_raw": p_header_raw, "sound": p_sound, "complete": p_complete, "root_twice": p_root_twice, "bits_roundtrip": p_bits_roundtrip}
 
 
 def eval_pred(kind, case=None):
@@ -1063,11 +1104,74 @@ def run(ctx):
         b, f17d = b"", True
     rec.finding("F17d", f17d, {"target": 0x1234, "bits": xb(b), "GetCompact": "0x02123400"})
 
+    # ---- raw 80-byte headers through Block.parse_header: the 4 version bytes over the whole range (nVersion is a signed
+    #      int32 in Core; BIP9 versions and miners' version rolling set the high bits), every other field random
+    versions = [0, 1, 2, 3, 4, 0x20000000, 0x3FFFFFFF, 0x7FFFFFFF, 0x80000000, 0x80000001, 0xA0000004, 0xC0000000,
+                0xE0000000, 0xFFFFFFFE, 0xFFFFFFFF] + [rng.getrandbits(32) for _ in range(ctx.n(40))] + \
+               [rng.getrandbits(31) | 0x80000000 for _ in range(ctx.n(20))]
+
+    def raw_header(version, prev=None, bits=None):
+        return version.to_bytes(4, "little") + (prev[::-1] if prev is not None else rbytes(rng, 32)) + rbytes(rng, 32) + \
+            rbytes(rng, 4) + (bits or rng.choice([bytes.fromhex("ffff7f20"), bytes.fromhex("ffff7f20"), bytes.fromhex("ffff001d"),
+                                                   bytes.fromhex("ffff7f22"), rbytes(rng, 3) + bytes([rng.choice([0x1f, 0x20, 0x21])])])) + rbytes(rng, 4)
+
+    def sha256d(b):
+        import hashlib
+        return hashlib.sha256(hashlib.sha256(b).digest()).digest()
+    for v in versions:
+        raw = raw_header(v)
+        lines.append(("raw_hdr", f"raw_hdr {xb(raw)}"))
+        lines.append(("raw_hdr_spec", f"raw_hdr_spec {xb(raw)}"))
+        preds.append(("header_raw", {"raw": xb(raw)}))
+    for hx in hdr_hex:
+        lines.append(("raw_hdr", f"raw_hdr x{hx}"))
+        lines.append(("raw_hdr_spec", f"raw_hdr_spec x{hx}"))
+        preds.append(("header_raw", {"raw": "x" + hx}))
+    for ln in (0, 3, 4, 36, 79, 81, 100):         # short / long streams (model only: short reads are silent)
+        lines.append(("raw_hdr", f"raw_hdr {xb(rbytes(rng, ln))}"))
+
+    def mine_raw(prev, version):
+        while True:
+            raw = raw_header(version, prev=prev, bits=bytes.fromhex("ffff7f20"))
+            if int.from_bytes(sha256d(raw), "little") < 0x7FFFFF << 232:
+                return raw
+    for _ in range(ctx.n(25)):
+        chain, prev = [], rbytes(rng, 32)
+        for _k in range(rng.randrange(1, 6)):
+            raw = mine_raw(prev, rng.choice(versions))
+            chain.append(raw)
+            prev = sha256d(raw)[::-1]
+        variants = [chain]
+        if len(chain) >= 2:
+            c2 = list(chain)
+            c2[0], c2[1] = c2[1], c2[0]
+            variants.append(c2)
+            c3 = list(chain)
+            c3[-1] = raw_header(rng.choice(versions), prev=rbytes(rng, 32), bits=bytes.fromhex("ffff7f20"))
+            variants.append(c3)
+        for c in variants:
+            lines.append(("raw_headers_valid", "raw_headers_valid " + blist(c)))
+    # merkleblock messages (MerkleBlock.parse -> hash / is_valid / proved_txs) under such headers
+    for _ in range(ctx.n(30)):
+        n = rng.randrange(1, 30)
+        ids = [rbytes(rng, 32) for _ in range(n)]
+        matches = [rng.random() < 0.4 for _ in range(n)]
+        total, hashes, flags, root = py_build(ids, matches)
+        v = rng.choice(versions)
+        hdr = v.to_bytes(4, "little") + rbytes(rng, 32) + (root if rng.random() < 0.85 else rbytes(rng, 32)) + rbytes(rng, 12)
+        msg = hdr + total.to_bytes(4, "little") + H.encode_varint(len(hashes)) + b"".join(h[::-1] for h in hashes) + \
+            H.encode_varstr(flags)
+        lines.append(("raw_merkleblock", f"raw_merkleblock {xb(msg)}"))
+
     # header chains with easy proof-of-work
     def mine(prev, bits=bytes.fromhex("ffff7f20")):
         while True:
             h = B.Block(rng.getrandbits(29), prev, rbytes(rng, 32), rng.getrandbits(32), bits, rbytes(rng, 4))
-            if h.check_pow():
+            # the search condition is computed here (hashlib), never by the code under test: a check_pow that refuses
+            # valid work must show up as a disagreement, not as a harness that mines for ever
+            raw = (h.version.to_bytes(4, "little") + h.prev_block[::-1] + h.merkle_root[::-1] +
+                   h.timestamp.to_bytes(4, "little") + h.bits + h.nonce)
+            if int.from_bytes(sha256d(raw), "little") < 0x7FFFFF << 232:
                 return h
     for _ in range(ctx.n(30)):
         chain, prev = [], rbytes(rng, 32)
